@@ -8,7 +8,7 @@
    their layout: library forms are normalised to the model's, every test that
    remains is case-split, and loop invariants are stated about go_range. *)
 From Coq Require Import List NArith ZArith Bool Lia ZifyBool.
-From P9 Require Import Base.Res Base.GoRt Model.Path Proofs.GoRtProofs Gen.GenPath.
+From P9 Require Import Base.Res Base.GoRt Model.Path Proofs.PathProofs Proofs.GoRtProofs Gen.GenPath.
 Import ListNotations.
 
 Ltac lib_norm :=
@@ -33,6 +33,22 @@ Ltac destruct_atom c :=
 Ltac split_ifs :=
   repeat (match goal with |- context [if ?c then _ else _] => destruct_atom c end; cbn [orb andb negb]).
 
+(* a combination of test outcomes that no string satisfies (s = ".." and s = ".", s = ".." and s has a
+   separator, ...): turn the successful string comparisons into equations and compute *)
+Ltac contra :=
+  exfalso;
+  repeat match goal with
+  | H : bstr_eqb ?a ?b = true |- _ =>
+      destruct (bstr_eqb_spec a b) as [?E|?E]; [clear H; try discriminate | discriminate H]
+  | H : is_empty ?s = true |- _ => destruct s; [clear H | discriminate H]
+  end;
+  subst;
+  try match goal with H : ?a = ?b |- _ => discriminate H end;
+  repeat match goal with
+  | H : _ = true |- _ => vm_compute in H; discriminate H
+  | H : _ = false |- _ => vm_compute in H; discriminate H
+  end.
+
 (* ---- ValidPath ---- *)
 
 Lemma gen_valid_loop : forall args i n,
@@ -41,7 +57,7 @@ Lemma gen_valid_loop : forall args i n,
 Proof.
   induction args as [|s r IH]; intros i n; [right; reflexivity|].
   cbn [go_range_from valid_path_go]. unfold gen_ValidPath_loop1 at 1 3. cbv zeta. lib_norm.
-  split_ifs; first [left; reflexivity | apply IH].
+  split_ifs; first [left; reflexivity | apply IH | contra].
 Qed.
 
 Theorem gen_ValidPath_eq : forall args, gen_ValidPath args = Ret (valid_path args).
@@ -66,7 +82,7 @@ Proof.
   assert (Hs : go_store (rev stk ++ j :: junk) (go_len stk) s = Some (rev (s :: stk) ++ junk)).
   { replace (go_len stk) with (go_len (rev stk)) by (unfold go_len; rewrite rev_length; reflexivity).
     rewrite go_store_app. cbn [rev]. rewrite <- app_assoc. reflexivity. }
-  rewrite Hs. split_ifs; reflexivity.
+  rewrite ?Hs. split_ifs; first [reflexivity | contra].
 Qed.
 
 Lemma gen_norm_loop : forall args i stk junk lo,
@@ -125,7 +141,7 @@ Theorem gen_CreateName_eq : forall dir name,
     end.
 Proof.
   intros. unfold gen_CreateName, create_name. cbv zeta. lib_norm. fold_tests.
-  split_ifs; first [reflexivity | exfalso; lia].
+  split_ifs; first [reflexivity | exfalso; lia | contra].
 Qed.
 
 Theorem gen_WalkName_eq : forall dir names,
@@ -139,7 +155,7 @@ Proof.
   intros. unfold gen_WalkName, walk_name. rewrite go_slice_removelast.
   destruct dir as [|c dir]; [reflexivity|].
   rewrite gen_ValidPath_eq. cbv zeta. lib_norm.
-  split_ifs; first [reflexivity | exfalso; lia].
+  split_ifs; first [reflexivity | exfalso; lia | contra].
 Qed.
 
 Definition invalid_path_prefix : list N := [105; 110; 118; 97; 108; 105; 100; 32; 112; 97; 116; 104; 58; 32]%N.
@@ -153,5 +169,5 @@ Theorem gen_ToWalk_eq : forall p,
 Proof.
   intros. unfold gen_ToWalk, to_walk. rewrite gen_NormalizePath_eq. cbv zeta.
   destruct (normalize_path (split_slash (trim_slash p))) as [steps bsp].
-  split_ifs; first [reflexivity | exfalso; lia].
+  split_ifs; first [reflexivity | exfalso; lia | contra].
 Qed.
